@@ -40,6 +40,12 @@ func c07Requests() []c07Req {
 	return []c07Req{
 		{Name: "create", Method: "POST", Path: "transactions", Body: tx, Kind: "NEW_TRANSACTION"},
 		{Name: "create-other", Method: "POST", Path: "transactions", Body: tx2, Kind: "NEW_TRANSACTION"},
+		// scripts that compile and bind but are refused while running, each for another reason
+		{Name: "script-fail", Method: "POST", Path: "transactions", Kind: "NEW_TRANSACTION", Body: `{"script":{"plain":"fail"}}`},
+		{Name: "script-portions-over", Method: "POST", Path: "transactions", Kind: "NEW_TRANSACTION",
+			Body: `{"script":{"plain":"vars {\n portion $p\n portion $q\n}\nsend [X 10] (\n source = @world\n destination = {\n  $p to @a\n  $q to @b\n }\n)\n","vars":{"p":"2/3","q":"2/3"}}}`},
+		{Name: "script-poor", Method: "POST", Path: "transactions", Kind: "NEW_TRANSACTION", Body: `{"script":{"plain":"send [X 10] (\n source = @nobody\n destination = @a\n)\n"}}`},
+		{Name: "script-ok", Method: "POST", Path: "transactions", Kind: "NEW_TRANSACTION", Body: `{"script":{"plain":"send [X 10] (\n source = @world\n destination = @a\n)\nset_tx_meta(\"k\", \"v\")\n"}}`},
 		{Name: "revert-0", Method: "POST", Path: "transactions/0/revert", Kind: "REVERTED_TRANSACTION"},
 		{Name: "meta-account", Method: "POST", Path: "accounts/a/metadata", Body: `{"m":"1"}`, Kind: "SET_METADATA"},
 		{Name: "meta-tx-0", Method: "POST", Path: "transactions/0/metadata", Body: `{"m":"1"}`, Kind: "SET_METADATA"},
@@ -166,7 +172,7 @@ func clientWrites(prop string) int {
 	for _, api := range []string{"v2/", ""} {
 		for i := range reqs {
 			for j := range reqs {
-				for _, keys := range [][2]string{{"k", "k"}, {"k", "K"}, {"k", "k "}, {"k", ""}, {"", ""}, {"k1", "k2"}, {"raw\xffkey", "raw\xffkey"}} {
+				for _, keys := range [][2]string{{"k", "k"}, {"k", "K"}, {"k", "k "}, {"k", ""}, {"", ""}, {"k1", "k2"}, {"raw\xffkey", "raw\xffkey"}, {strings.Repeat("k", 255), strings.Repeat("k", 255)}, {strings.Repeat("k", 256), strings.Repeat("k", 256)}, {strings.Repeat("k", 300), strings.Repeat("k", 300)}} {
 					for _, restart := range []bool{false, true} {
 						seqs = append(seqs, seq{api, []c07Step{{Req: i, Key: keys[0]}, {Req: j, Key: keys[1], Restart: restart}}})
 					}
@@ -275,7 +281,7 @@ func clientWrites(prop string) int {
 		"traces_validated_against_impl": int(states),
 		"samples":                       samples.Got,
 		"exhaustive":                    true,
-		"rule":                          fmt.Sprintf("client-level part: every ordered pair of %d write requests (create, revert, set / delete metadata on accounts and transactions, bulk elements) x 7 key assignments (same key, case / padding variants, one keyed, none, distinct, a key that is not valid UTF-8) x with/without a restart in between [thorough: + triples], sent through the real v1 and v2 routers (Idempotency-Key header, ik of a bulk element) onto a real Commander over memstore; states = sequences, transitions = requests", len(reqs)),
+		"rule":                          fmt.Sprintf("client-level part: every ordered pair of %d write requests (create, revert, set / delete metadata on accounts and transactions, bulk elements) x 10 key assignments (same key, case / padding variants, one keyed, none, distinct, a key that is not valid UTF-8, keys of 255 / 256 / 300 characters) x with/without a restart in between [thorough: + triples], sent through the real v1 and v2 routers (Idempotency-Key header, ik of a bulk element) onto a real Commander over memstore; states = sequences, transitions = requests", len(reqs)),
 	}
 	return rep.Finish(cov)
 }
